@@ -656,6 +656,23 @@ theorem pool_pr_never_panics (e : Epoch) (ops : List PoolOp) (hc : Consistent (p
   refine ⟨safeRun_prTrace hc, fun x hx => (by rw [hpr] at hx; cases hx), anns, hpr, ?_⟩
   exact ParentReady.announced_once (safeRun_prTrace hc) hpr
 
+/-- **No tracker panic, step by step.**  In a reachable pool with consistent log `L`, for every next log item `it`
+    (a certificate passed to `add_valid_cert`, or a block registration) that keeps the log consistent: the finality
+    operation it triggers does not panic, and none of the calls it makes to the parent-ready tracker does (the whole
+    trace, which ends with exactly these calls, runs to the end).  In the pool these are the only sources of the `panic`
+    events of `handle_finalization` / `applyPr` (`handleFin_panic_iff`, `applyPr_panic_iff`). -/
+theorem pool_trackers_never_panic (e : Epoch) (ops : List PoolOp) (it : LogItem)
+    (hc : Consistent (poolLog { epoch := e } ops ++ [it])) :
+    (∀ op ∈ it.finOp, ∃ t ev, Finality.step (poolRun { epoch := e } ops).1.fin op = .ok t ev) ∧
+    ∃ st, ParentReady.run (prTrace (poolLog { epoch := e } ops) ++
+        (itemStep (poolRun { epoch := e } ops).1.fin it).2) = .ok st ∧
+      st.t = ((poolRun { epoch := e } ops).1.trk.item it).pr := by
+  have w := pool_wired e ops hc.prefix
+  refine ⟨fin_item_ok w it hc, ?_⟩
+  obtain ⟨anns, hpr⟩ := (w.item it hc).pr
+  rw [prTrace_snoc, w.fin] at hpr
+  exact ⟨_, hpr, rfl⟩
+
 /-! ### the premise: non-vacuity, necessity -/
 
 def demoEpoch : Epoch := { stakes := [1, 1, 1, 1, 1], own := 0 }
